@@ -67,7 +67,7 @@ def main():
                 print(f"     variant {f['name'][:60]:<60} expect={f['expect']} exit={f.get('exit')}" + (f"  {f['lines'][0][:150]}" if verbose and f.get('lines') else ""))
         except ModuleNotFoundError:
             pass
-        seeds = collect([os.path.join(HERE, "seeded"), "/tmp/seed3_out"], prop, "m")
+        seeds = collect([os.path.join(HERE, "seeded")], prop, "m")
         refs = collect([os.path.join(HERE, "refactors")], prop, "r")
         with ThreadPoolExecutor(max_workers=8) as ex:
             sres = list(ex.map(lambda s: run_patch(prop, s[1]), seeds))
